@@ -64,7 +64,15 @@ def gen_tree(rng, layers, depth, counter, opts_stub):
         lobj = None
         if lyr is not None:
             lobj = layers.names[lyr] if rng.random() < 0.3 and lyr != 0 else layers.objs[lyr]
-        cls = make_case_class(lvl if on_class else None, lobj if on_class else None)
+        pool = opts_stub.__dict__.setdefault("_class_pool", [])
+        if not on_class and pool and rng.random() < 0.25:
+            # another instance of a test class that is already in the tree (equal to it as unittest compares tests:
+            # same class, same method), placed under other declarations
+            cls = rng.choice(pool)
+        else:
+            cls = make_case_class(lvl if on_class else None, lobj if on_class else None)
+            if not on_class:
+                pool.append(cls)
         t = cls()
         t._name = "t%d" % tid
         if not on_class:
@@ -152,7 +160,8 @@ def run_suites(ctx):
             # --only-level overrides --at-level and --all, whatever their value
             at_level = rng.choice([0, -1, MAXSIZE, 2, -5])
             only = rng.choice([0, 1, 2, 3])
-        pats = rng.choice([["."], ["t1"], ["!t1"], ["t[02468]$"], ["t1", "!t1[0-9]"], ["^t2$", "t3"]])
+        pats = rng.choice([["."], ["t1"], ["!t1"], ["t[02468]$"], ["t1", "!t1[0-9]"], ["^t2$", "t3"], [".", "!t1"],
+                           ["!t[0-4]$", "."], [".", "t1", "!t2"]])
         cases.append((trees, at_level, only, pats, counter[0]))
     queries = []
     reals = []
